@@ -30,8 +30,11 @@ PLANS = {
                       {"num": 200000, "depth": 8})],
     },
     "C02": {
-        "quick": [("c02q", inst(LeafFam="<-C02LeavesQ", MaxLeaves=1, MaxCalls=5, Vias="<-cViaVerify"), {"clones": 2}, None)],
-        "thorough": [("c02t", inst(LeafFam="<-C02LeavesT", MaxLeaves=1, MaxCalls=6, Vias="<-cViaVerify"), {"clones": 2}, None)],
+        "quick": [("c02q", inst(LeafFam="<-C02LeavesQ", MaxLeaves=1, MaxCalls=5, Vias="<-cViaVerify"), {"clones": 2}, None),
+                  # four- and five-segment chains (inner segment boundaries of the responder search)
+                  ("c02long", inst(LeafFam="<-C02LeavesLong", MaxLeaves=1, MaxCalls=7, Vias="<-cViaVerify"), {"clones": 1}, None)],
+        "thorough": [("c02t", inst(LeafFam="<-C02LeavesT", MaxLeaves=1, MaxCalls=6, Vias="<-cViaVerify"), {"clones": 2}, None),
+                     ("c02long", inst(LeafFam="<-C02LeavesLong", MaxLeaves=1, MaxCalls=8, Vias="<-cViaVerify"), {"clones": 2}, None)],
     },
     "C03": {
         "quick": [("c03q", inst(LeafFam="<-C03LeavesQ", MaxLeaves=2, MaxCalls=4, StrictFam="<-cStrictOnly"),
